@@ -12,6 +12,14 @@ CHECKS = {
          "TLC explores the generation model GenOps: combination tables that make one statement meet every pair of pool values (null, zero, negative, fractional, empty and padded strings), every arithmetic / comparison / boolean / string / membership / conditional / numeric-function operator at dataset, dataset-scalar, scalar-dataset and component level, every key-overlap pattern over two keys with nested identifier sets, chained second statements; the 27 Kleene rows and dataset well-formedness are invariants. Every transition is a test of run() (B1); random well-typed terms of depth <= 4 over 1-3 datasets (1-3 identifiers, 1-3 measures, 0-20 rows, unicode strings) are validated by VTLOperators_Trace (B2).",
          "ln/exp/log/sqrt/non-integer power are uninterpreted (domain, null, type only); mod with a zero or negative operand, power of a non-positive base and nvl/if with branches of different numeric types are excluded as not determined (spec/READINGS.md). Numbers compared with 1e-6 relative tolerance; magnitudes bounded (32-bit TLC).",
          "TLA+ executable semantics, TLC enumeration replayed into run(), TLC trace validation"),
+ 'C02': ('model_checking',
+         "TLC enumerates every well-formed chain of 1-2 (thorough: 1-3) clauses - filter with true/false/null outcomes, calc adding / overwriting / changing role, keep, drop, rename of measures and identifiers, sub on each identifier - over a 4-row and an empty dataset (GenClauses); each chain is ONE statement replayed into run() and compared with the specification's value; random chains of length 1-4 with random well-typed expressions over random datasets are validated by VTLOperators_Trace.",
+         "Clauses on join results are exercised by C04; pivot/unpivot/apply are not modelled.",
+         "TLA+ executable semantics, TLC enumeration replayed into run(), TLC trace validation"),
+ 'C03': ('model_checking',
+         "TLC enumerates the ten aggregate operators x grouping modes (none, by, except) x having conditions, standalone and inside aggr, over datasets with repeated keys in the non-grouped identifier, null measures, an all-null group, a single-datapoint group and the empty dataset (GenAggr); every transition is replayed into run(); random aggregation statements over random datasets of 0-200 datapoints are validated by VTLOperators_Trace with exact rational arithmetic (standard deviations by squaring).",
+         "count over a group without non-null values (0 vs null) is not judged; count() without operand counts datapoints with at least one non-null measure (spec/READINGS.md 15); standalone having only over mono-measure datasets (engine limitation).",
+         "TLA+ executable semantics, TLC enumeration replayed into run(), TLC trace validation"),
  'C05': ('model_checking',
          "TLC exhaustively explores the set-operator model GenSets (every subset of 3 keys per operand, 2-4 operands in every order, conflicting measures, chained statements) and checks algebraic laws and well-formedness in every state; every explored transition is a candidate test of run() (B1, seeded sample in the quick tier) and random larger inputs are validated by the trace specification VTLOperators_Trace (B2).",
          "Numbers compared with 1e-6 relative tolerance.",
